@@ -141,6 +141,10 @@ def proc_line(raw, app='real', alloc=10000, ws='all', flush='ok', read_err=False
 def preq_line(raw, ws='all', flush='ok', read_err=False):
     return f"preq {'e' if read_err else 'd:' + C.hx(raw)} {ws} {flush}"
 
+def aexec_line(raw, legacy=False):
+    """the application handler called directly (App::execute / App::handle_request), no server loop in front of it"""
+    return f"aexec {1 if legacy else 0} d:{C.hx(raw)}"
+
 def run_stateful(argv, lines, nsetup=3):
     """serve mode keeps state (tree, env) per process.  `lines[:nsetup]` are the set-up lines
     (tree, env, manifest).  When the process dies on a case (stack overflow, abort) that case is
